@@ -2292,9 +2292,9 @@ class Problem(object, metaclass=ProblemMetaclass):
 
         if case_is_dict:
             # case data comes from list_inputs/list_outputs, keyed on absolute pathname
-            # we need it to be keyed on promoted name
+            # inputs are set by absolute name, outputs need to be keyed on promoted name
             if 'inputs' in case:
-                inputs = {meta['prom_name']: meta for meta in case['inputs'].values()}
+                inputs = case['inputs']
             else:
                 inputs = None
             if 'outputs' in case:
@@ -2309,7 +2309,8 @@ class Problem(object, metaclass=ProblemMetaclass):
         resolver = self.model._resolver
 
         if inputs:
-            for abs_name in inputs:
+            # iterating over the inputs of a Case may yield promoted names
+            for abs_name in (inputs if case_is_dict else inputs.absolute_names()):
                 if set_later(abs_name):
                     continue
 
